@@ -62,6 +62,25 @@ CLAIMED["C20"] = ("verif-mgr", "DESIGN.md §3 C20",
     MGR_NOTE + " Pre-emption exists only at hooked points; Notify, broadcast, ArcSwap internals are atomic steps; the managed-pair index is the simulator's model of scc::HashIndex (scc itself is trusted).",
     "deterministic simulation with fault injection (baton-passing actor threads with seeded pre-emption at hooked synchronisation points, quiescence/lost-wake-up oracle, replayable choice vector, shrinking)")
 
+NET_NOTE = ("Trusted: the reference router's reading of draft-dekater-scion-dataplane and of the open-source router's checks (where the specification is open it answers 'unspecified' and nothing is compared: router alerts, "
+            "future timestamps, the 337.5 s expiry boundary second, source/destination plausibility of packets from inside an AS, single-hop segments outside peering paths); the aes/cmac crates. "
+            "Verdicts are compared in coarse classes (delivered@AS, link-down@(AS,if), refused), SCMP sub-codes are not. AS certificates are generated once per process. No hooks: everything goes through pocketscion's public API "
+            "(one real router step per ScionNetworkSim::iter(..).next()).")
+NET_TECH = "deterministic simulation with fault injection (simulator-owned links between real per-AS router steps: delay, link flaps, bit flips, misdelivery, attacker recombination of authentic segments; verdict equivalence with an independent reference router; replayable choice vector, shrinking)"
+CLAIMED["C13"] = ("verif-net", "DESIGN.md §3 C13",
+    "Seeded search over drawn topologies (1-3 ISDs, core meshes, parent/child DAGs with multi-homing and parallel links, peering links, colliding or sparse interface numberings, per-AS keys), "
+    "packets on every kind of offered path (incl. shortcuts, peering, three segments), faulty traversals (packet delayed across hop expiry, egress link taken down in flight, single bit flips in the path and ISD-AS fields, "
+    "delivery to a wrong AS/interface), an attacker endpoint recombining authentic segments harvested from offered and reversed paths (splices, loops, flipped direction/peering flags, forged SegIDs, truncations, injection from outside), "
+    "and one-hop paths. Each packet is walked AS by AS through pocketscion's real router step and, under the same faults, through an independent reference router; the final verdicts must agree; "
+    "a verdict is reached within the step budget; local delivery only in the destination AS; every forward goes over an existing link. Evidence, not proof.",
+    NET_NOTE, NET_TECH)
+CLAIMED["C01"] = ("verif-net", "DESIGN.md §3 C01",
+    "Same topologies; for drawn ordered AS pairs the real control plane (SegmentRegistry::from_topology, the lister plan, real MAC chaining and signing with drawn beacon timestamps, SegIDs and expiry units, and the stock paths() entry point) "
+    "and the real combinator produce the offered paths; every path is put on a packet and walked through the reference routers with the clock inside/at the edges of the validity window: it must be delivered in the destination AS "
+    "within its hop count, the walk must visit exactly the (AS, ingress) sequence the path metadata announces, the reply on the SDK-reversed path of the delivered packet must reach the source, the SDK's own routers must deliver it too, "
+    "and whenever an independent valley-free reachability search over the generated topology finds a route, at least one path is offered. Evidence, not proof.",
+    NET_NOTE, NET_TECH)
+
 NOT_APPLICABLE = {
     "C02": "pure function of a byte string (no stream, timer, shared state or fault in it): not a simulation target; needs exhaustive enumeration / a memory checker",
     "C03": "pure function of a packet model / byte string: needs an independent reference decoder and boundary-directed input generation, not a scheduler",
@@ -77,10 +96,8 @@ NOT_APPLICABLE = {
 
 # planned but not yet built engines: listed as not claimed until their check exists
 PENDING = {
-    "C01": "engine net-sim not built yet in this round (planned: DESIGN.md §3 C01); not claimed until its check exists",
-    "C11": "engine net-sim not built yet in this round (planned: DESIGN.md §3 C11); not claimed until its check exists",
-    "C13": "engine net-sim not built yet in this round (planned: DESIGN.md §3 C13); not claimed until its check exists",
-    "C14": "engine net-sim not built yet in this round (planned: DESIGN.md §3 C14); not claimed until its check exists",
+    "C11": "not claimed yet: its network reading (failure atomicity and monotonicity per AS step, tamper detection in flight) is planned on verif-net; until that check exists nothing is claimed",
+    "C14": "not claimed yet: SCMP ping-pong through pocketscion's dispatcher and the socket receive loop is planned; until that check exists nothing is claimed",
 }
 
 ENGINES = {
